@@ -1,4 +1,4 @@
-From Hannibal Require Import Model.Sys.
+From Hannibal Require Import Model.Sys Inv.Refs.
 From Hannibal Require Props.C05.
 Check Props.C05.C05_strong_counted_weak_not :
   (forall k, is_weak k = false -> fst (holds k) = 1) /\ (forall k, is_weak k = true -> holds k = (0, 0))
@@ -18,3 +18,13 @@ Check Props.C05.C05_upgrade_iff_strong_reference :
 Check Props.C05.C05_last_drop_drains_then_stops :
   forall s a s' x, step s (EvCbBegin a CbStopped) = Acc s' -> actors s a = Some x -> a_phase x = PhIdle ->
   a_queue x = [] /\ a_tx x = 0 /\ a_ftx x = 0 /\ a_inflight x = 0.
+Check Props.C05.C05_accounting_invariant :
+  forall tr s, run init tr = Acc s -> exists g, refs_inv s g.
+Check Props.C05.C05_strong_handle_keeps_alive :
+  forall tr s h a k x, run init tr = Acc s -> handles s h = Some (a, k) -> is_weak k = false ->
+  actors s a = Some x -> upgradable x = true /\ force_alive x = true /\ closed x = false.
+Check Props.C05.C05_no_exit_while_strongly_held :
+  forall tr s a s' x, run init tr = Acc s -> step s (EvCbBegin a CbStopped) = Acc s' -> actors s a = Some x ->
+  a_phase x = PhIdle -> forall h k, handles s h = Some (a, k) -> is_weak k = true.
+Check Props.C05.C05_registry_keeps_alive :
+  forall tr s ty a x, run init tr = Acc s -> reg s ty = Some a -> actors s a = Some x -> 1 <= a_tx x.
